@@ -515,7 +515,7 @@ fn index_get_string(obj: Object, mut index: isize, gc: &mut GC) -> Result<Object
         index += str.chars().count() as isize;
     }
     let index = index as usize;
-    if index >= str.len() {
+    if index >= str.chars().count() {
         return Err(Error::IndexError(
             "lijst index valt buiten de lijst".to_string(),
         ));
